@@ -126,7 +126,15 @@ pub fn scenario(g: &mut G, ctx: &RunCtx) -> RunReport {
         if l == "content-length" || l == "transfer-encoding" || l == "content-encoding" || l == "location" {
             name = format!("X-{}", i);
         }
-        let raw = gen_value(g, if big { 15_000 } else { 300 });
+        let mut raw = gen_value(g, if big { 15_000 } else { 300 });
+        if big && g.chance(1, 6) {
+            // a field line of exactly the line limit (16384 wire bytes including CRLF), or one less:
+            // "name: value CRLF" -> value length = limit - name - 2 (": ") - 2 (CRLF)
+            let limit = 16 * 1024 - g.usize_below(2);
+            let vlen = limit - name.len() - 4;
+            raw = (0..vlen).map(|j| b"abcdefghijklmnopqrstuvwxyz0123456789"[j % 36]).collect();
+            g.probe("header-line-exactly-at-16k-limit");
+        }
         fields.push(Field { name, raw });
     }
     let mut wire = Vec::new();
@@ -142,7 +150,7 @@ pub fn scenario(g: &mut G, ctx: &RunCtx) -> RunReport {
     for f in &fields {
         wire.extend_from_slice(f.name.as_bytes());
         wire.push(b':');
-        if !f.raw.starts_with(b" ") && g.chance(3, 4) {
+        if !f.raw.starts_with(b" ") && (f.raw.len() > 16_000 || g.chance(3, 4)) {
             wire.push(b' ');
         }
         wire.extend_from_slice(&f.raw);
